@@ -69,6 +69,7 @@ KEYMAP = {
     'validation-accepts-wrap-overlap': 'validation:tdc-wrap-overlap',
     'cascade-opening-reported-twice': 'cascade:duplicate-openings-across-pulses',
     'cascade-closed-inside-reported-interval': 'cascade:phantom-openings-subharmonic',
+    'ratio-int-pulse-frequency-rounded': 'ratio:int-pulse-frequency-unit-conversion',
 }
 
 
@@ -190,7 +191,7 @@ def gen_case(rng, i):
     bpunit, phunit = rng.choice(['deg', 'rad']), rng.choice(['deg', 'rad'])
     bp_t = rng.choice([0.0, rng.uniform(0, 1), rng.uniform(-3, 3)])
     ph_t = rng.choice([0.0, rng.uniform(0, 1), rng.uniform(-3, 3)])
-    return {'id': i, 'mode': mode, 'ratio': str(ratio), 'delta': dsign * delta,
+    c = {'id': i, 'mode': mode, 'ratio': str(ratio), 'delta': dsign * delta, 'fdtype': 'float64', 'fpdtype': 'float64',
             'f': hx(f_hz / float(FUNIT[funit])), 'funit': funit,
             'fp': hx(fp_hz / float(FUNIT[fpunit])), 'fpunit': fpunit,
             'bp': hx(bp_t * (360.0 if bpunit == 'deg' else 2 * math.pi)), 'bpunit': bpunit,
@@ -199,9 +200,61 @@ def gen_case(rng, i):
             'npulses': rng.randint(1, 4)}
 
 
-def witness(i, f, begin, end, npulses, mode, fp=14.0):
-    return {'id': i, 'mode': mode, 'ratio': str(Fraction(f) / Fraction(fp)), 'delta': 0.0, 'f': hx(f), 'funit': 'Hz',
-            'fp': hx(fp), 'fpunit': 'Hz', 'bp': hx(0.0), 'bpunit': 'deg', 'ph': hx(0.0), 'phunit': 'deg',
+INT_F = {'Hz': [5, 7, 14, 28, 56, 10, 25, 60, 112, 15, 21], 'kHz': [1, 2, 4, 7, 8], '1/min': [840, 600, 420, 1500, 3000, 850]}
+INT_P_MISMATCH = [  # (f, funit, fp, fpunit): integer pulse frequency whose unit conversion is / is not exact
+    (1, 'kHz', 125, 'Hz'), (1, 'kHz', 250, 'Hz'), (2, 'kHz', 1600, 'Hz'), (2, 'kHz', 500, 'Hz'), (2, 'kHz', 2000, 'Hz'),
+    (7, 'kHz', 1400, 'Hz'), (4, 'kHz', 1500, 'Hz'), (3, 'kHz', 2500, 'Hz'), (8, 'kHz', 1000, 'Hz'), (1, 'kHz', 4000, 'Hz'),
+    (14, 'Hz', 850, '1/min'), (14, 'Hz', 840, '1/min'), (7, 'Hz', 870, '1/min'), (28, 'Hz', 420, '1/min'),
+    (15, 'Hz', 900, '1/min'), (14, 'Hz', 1650, '1/min'), (840, '1/min', 14, 'Hz'), (840, '1/min', 7, 'Hz'),
+    (420, '1/min', 14, 'Hz'), (2000, 'Hz', 1, 'kHz'), (500, 'Hz', 1, 'kHz'), (14, 'Hz', 1, 'kHz'),
+]
+
+
+def int_frequencies(rng, c):
+    """overwrite the frequencies of case c with a scenario in which frequency and / or pulse frequency are stored
+    with an integer dtype (int64 / int32); accept and reject sides of the ratio test both occur"""
+    idt = lambda: rng.choice(['int64', 'int64', 'int32'])  # noqa: E731
+    kind = rng.choice(['int_f_float_p', 'int_f_float_p', 'both_int_same_unit', 'int_p_mismatch', 'int_p_mismatch', 'float_f_int_p'])
+    sign = rng.choice([1, -1])
+    if kind == 'int_f_float_p':
+        funit = rng.choice(['Hz', 'Hz', 'kHz', '1/min'])
+        F = rng.choice(INT_F[funit])
+        ratio = rng.choice(RATIOS)
+        delta = rng.choice([0.0] * 4 + DELTAS[1:]) * rng.choice([1, -1])
+        fpunit = rng.choice(['Hz', 'Hz', 'kHz', '1/min'])
+        if rng.random() < 0.3:      # a pulse frequency that is simply not commensurate (7.5 Hz, 14.005 Hz, ...)
+            fp_hz = float(F * FUNIT[funit]) * rng.choice([7.5 / 14, 14.005 / 14, 1.5, 0.4, 2.5 / 6])
+            ratio, delta = 'incommensurate', None
+        else:
+            fp_hz = float(F * FUNIT[funit]) / (float(ratio) * (1 + delta))
+        c.update({'f': hx(sign * F), 'funit': funit, 'fdtype': idt(), 'fp': hx(fp_hz / float(FUNIT[fpunit])), 'fpunit': fpunit,
+                  'fpdtype': 'float64', 'ratio': str(ratio), 'delta': delta})
+    elif kind == 'both_int_same_unit':
+        unit = rng.choice(['Hz', 'Hz', '1/min', 'kHz'])
+        P = rng.choice({'Hz': [14, 10, 25, 7, 60], '1/min': [840, 600], 'kHz': [1, 2]}[unit])
+        F = rng.choice([P, 2 * P, 3 * P, 4 * P, 8 * P, P + 1, 2 * P + 1, 3 * P // 2 if P % 2 == 0 else 3 * P]
+                       + ([P // 2] if P % 2 == 0 else []) + ([P // 3] if P % 3 == 0 else []) + ([P // 4] if P % 4 == 0 else []))
+        c.update({'f': hx(sign * F), 'funit': unit, 'fdtype': idt(), 'fp': hx(P), 'fpunit': unit, 'fpdtype': idt(),
+                  'ratio': str(Fraction(F, P)), 'delta': 0.0})
+    elif kind == 'int_p_mismatch':
+        F, funit, P, fpunit = rng.choice(INT_P_MISMATCH)
+        fdt = rng.choice(['int64', 'int32', 'float64'])
+        c.update({'f': hx(sign * F), 'funit': funit, 'fdtype': fdt, 'fp': hx(P), 'fpunit': fpunit, 'fpdtype': idt(),
+                  'ratio': str(Fraction(F) * FUNIT[funit] / (Fraction(P) * FUNIT[fpunit])), 'delta': 0.0})
+    else:
+        unit = rng.choice(['Hz', '1/min'])
+        P = rng.choice({'Hz': [14, 10, 25, 60], '1/min': [840, 600]}[unit])
+        ratio = rng.choice(RATIOS)
+        delta = rng.choice([0.0] * 4 + DELTAS[1:]) * rng.choice([1, -1])
+        c.update({'f': hx(sign * P * float(ratio) * (1 + delta)), 'funit': unit, 'fdtype': 'float64', 'fp': hx(P), 'fpunit': unit,
+                  'fpdtype': idt(), 'ratio': str(ratio), 'delta': delta})
+    c['mode'] = c['mode'] + '+' + kind
+    return c
+
+
+def witness(i, f, begin, end, npulses, mode, fp=14.0, funit='Hz', fpunit='Hz', fdtype='float64', fpdtype='float64'):
+    return {'id': i, 'mode': mode, 'ratio': str(Fraction(f) * FUNIT[funit] / (Fraction(fp) * FUNIT[fpunit])), 'delta': 0.0,
+            'f': hx(f), 'funit': funit, 'fdtype': fdtype, 'fp': hx(fp), 'fpunit': fpunit, 'fpdtype': fpdtype, 'bp': hx(0.0), 'bpunit': 'deg', 'ph': hx(0.0), 'phunit': 'deg',
             'begin': [hx(x) for x in begin], 'end': [hx(x) for x in end], 'aunit': 'deg', 'int_slits': False,
             'npulses': npulses}
 
@@ -218,11 +271,24 @@ def corpus():
         witness(6, 14.0, [340.0], [700.0], 1, 'full-circle'),
         witness(7, 14.0, [340.0], [699.0], 1, 'tdc_span'),
         witness(8, 14.0, [], [], 2, 'no-slits'),
+        # integer-dtype frequencies
+        witness(9, 14.0, [10.0], [50.0], 1, 'int-pulse-witness', fp=850, fpunit='1/min', fpdtype='int64'),
+        witness(10, 1, [10.0], [50.0], 1, 'int-pulse-witness', fp=125, funit='kHz', fdtype='int64', fpdtype='int64'),
+        witness(11, 7, [10.0], [50.0], 1, 'int-pulse-witness', fp=1400, funit='kHz', fdtype='int64', fpdtype='int32'),
+        witness(12, 14, [10.0], [50.0], 1, 'int-frequency', fp=7.5, fdtype='int64'),
+        witness(13, 14, [10.0], [50.0], 1, 'int-frequency', fp=14.005, fdtype='int64'),
+        witness(14, 5, [10.0], [50.0], 1, 'int-frequency', fp=2.5, fdtype='int64'),
+        witness(15, 1, [10.0], [50.0], 1, 'int-frequency', fp=125.0, funit='kHz', fdtype='int32'),
+        witness(16, 840, [10.0], [50.0], 2, 'int-frequency', fp=14.0, funit='1/min', fdtype='int64'),
+        witness(17, -14, [10.0], [50.0], 1, 'int-frequency', fp=7, fdtype='int32', fpdtype='int32'),
     ]
 
 
 def human(c):
-    return {'mode': c['mode'], 'frequency': f"{fl(c['f'])!r} {c['funit']}", 'pulse_frequency': f"{fl(c['fp'])!r} {c['fpunit']}",
+    def fq(v, u, dt):
+        return f"{int(fl(v))} {u} ({dt})" if dt.startswith('int') else f"{fl(v)!r} {u}"
+    return {'mode': c['mode'], 'frequency': fq(c['f'], c['funit'], c.get('fdtype', 'float64')),
+            'pulse_frequency': fq(c['fp'], c['fpunit'], c.get('fpdtype', 'float64')),
             'ratio': c['ratio'], 'delta': c['delta'],
             'beam_position': f"{fl(c['bp'])!r} {c['bpunit']}", 'phase': f"{fl(c['ph'])!r} {c['phunit']}",
             'slit_begin': [fl(x) for x in c['begin']], 'slit_end': [fl(x) for x in c['end']], 'slit_unit': c['aunit'],
@@ -230,18 +296,21 @@ def human(c):
 
 
 SNIPPET = ('import scipp as sc; from scippneutron.chopper import DiskChopper; from scippneutron.tof.chopper_cascade import Chopper\n'
-           "ch = DiskChopper(axle_position=sc.vector([0,0,2.],unit='m'), frequency=sc.scalar({f!r},unit='{funit}'), "
+           "ch = DiskChopper(axle_position=sc.vector([0,0,2.],unit='m'), frequency=sc.scalar({f},unit='{funit}',dtype='{fdtype}'), "
            "beam_position=sc.scalar({bp!r},unit='{bpunit}'), phase=sc.scalar({ph!r},unit='{phunit}'), "
            "slit_begin=sc.array(dims=['slit'],values={b!r},unit='{aunit}'), slit_end=sc.array(dims=['slit'],values={e!r},unit='{aunit}'))\n"
-           "fp = sc.scalar({fp!r},unit='{fpunit}')\n"
+           "fp = sc.scalar({fp},unit='{fpunit}',dtype='{fpdtype}')\n"
            'print(ch.time_offset_open(pulse_frequency=fp).values, ch.time_offset_close(pulse_frequency=fp).values)\n'
            'c = Chopper.from_disk_chopper(ch, fp, {p}); print(c.time_open.values, c.time_close.values)')
 
 
 def snippet(c):
-    return SNIPPET.format(f=fl(c['f']), funit=c['funit'], bp=fl(c['bp']), bpunit=c['bpunit'], ph=fl(c['ph']),
+    def num(v, dt):
+        return repr(int(fl(v))) if dt.startswith('int') else repr(fl(v))
+    return SNIPPET.format(f=num(c['f'], c.get('fdtype', 'float64')), fdtype=c.get('fdtype', 'float64'),
+                          fpdtype=c.get('fpdtype', 'float64'), funit=c['funit'], bp=fl(c['bp']), bpunit=c['bpunit'], ph=fl(c['ph']),
                           phunit=c['phunit'], b=[fl(x) for x in c['begin']], e=[fl(x) for x in c['end']],
-                          aunit=c['aunit'], fp=fl(c['fp']), fpunit=c['fpunit'], p=c['npulses'])
+                          aunit=c['aunit'], fp=num(c['fp'], c.get('fpdtype', 'float64')), fpunit=c['fpunit'], p=c['npulses'])
 
 
 # ------------------------------------------------------------------------------------------- Coq terms
@@ -280,12 +349,11 @@ def case_term(c, r, notes):
     times = 'None'
     casc = 'None'
     n_guess = 1
+    terr = False
     if acc:
         t = r.get('times', {})
         if 'error' in t:
-            if t['error'] != 'ValueError':
-                notes.append(('times-raise-' + t['error'], c, t))
-                return None
+            terr = t['error'] != 'ValueError'
         else:
             o, cl, du = tlist(t['open'], t['unit']), tlist(t['close'], t['close_unit']), tlist(t['duration'], t['duration_unit'])
             if o is None or cl is None or du is None:
@@ -305,8 +373,10 @@ def case_term(c, r, notes):
     M = 2 + abs(bp) + abs(ph) + amax + n_guess * c['npulses']
     M = Fraction(math.ceil(M))
     slits = '[' + '; '.join(f'mkslit {qs(b)} {qs(e)}' for b, e in sl) + ']'
+    pint = c.get('fpdtype', 'float64').startswith('int')
     return (f'(mkcase {qs(f)} {qs(fp)} {qs(bp + ph)} {qs(M)} {slits} {c["npulses"]}%nat '
-            f'{"true" if acc else "false"} {times} {casc})')
+            f'{"true" if acc else "false"} {times} {casc} {qs(Fraction(fl(c["f"])))} {qs(Fraction(fl(c["fp"])))} '
+            f'{qs(FUNIT[c["fpunit"]] / FUNIT[c["funit"]])} {"true" if pint else "false"} {"true" if terr else "false"})')
 
 
 def detect_variants(cases, results):
@@ -370,20 +440,26 @@ def correspondence(ctx):
     timed = sum(1 for r in results if 'open' in r.get('times', {}))
     n_iv = sum(len(r['times']['open']) for r in results if 'open' in r.get('times', {}))
     n_civ = sum(len(r['cascade']['open']) for r in results if 'open' in r.get('cascade', {}))
-    distinct = len({json.dumps([c[k] for k in ('f', 'funit', 'fp', 'fpunit', 'bp', 'ph', 'begin', 'end', 'aunit', 'npulses')])
+    distinct = len({json.dumps([c.get(k) for k in ('f', 'funit', 'fdtype', 'fp', 'fpunit', 'fpdtype', 'bp', 'ph', 'begin', 'end', 'aunit', 'npulses')])
                     for c, r in zip(cases, results) if 'open' in r.get('times', {}) and len(r['times']['open']) > 0})
+    dt_count = {}
+    for c in cases:
+        k = c.get('fdtype', 'float64') + '/' + c.get('fpdtype', 'float64')
+        dt_count[k] = dt_count.get(k, 0) + 1
     modes = {}
     for c in cases:
-        modes[c['mode']] = modes.get(c['mode'], 0) + 1
+        modes[c['mode'].split('+')[0]] = modes.get(c['mode'].split('+')[0], 0) + 1
     ctx.coverage.update({
         'evaluations': len(terms),
         'distinct_nontrivial': distinct,
-        'rule': 'cases = 9 corpus witnesses + random DiskChoppers: ratio in {1/4,1/3,1/2,1,2,3,4,8} x (1 +- {0,1e-9,0.9e-8,1.1e-8,1e-6}), '
-                'either sign, Hz/kHz/1-per-min, 1..6 slits in deg/rad (float or int64) generated as disjoint/tight/TDC-spanning/whole-turn-shifted/'
+        'rule': 'cases = 18 corpus witnesses + random DiskChoppers: ratio in {1/4,1/3,1/2,1,2,3,4,8} x (1 +- {0,1e-9,0.9e-8,1.1e-8,1e-6}), '
+                'either sign, Hz/kHz/1-per-min, float64 and (30% of the well-formed slit sets) int64/int32 frequency and/or pulse frequency with '
+                'non-integer / unit-mismatched counterparts, 1..6 slits in deg/rad (float or int64) generated as disjoint/tight/TDC-spanning/whole-turn-shifted/'
                 'wrap-overlapping/touching/overlapping/begin>end/zero-width sets in shuffled order, beam position and phase in [-3,3] turns (deg/rad), '
                 '1..4 pulses; every case is checked in Coq (validation vs specification and model, times vs model at 1e-12, disk simulation on the '
                 'reported intervals, cascade expansion); non-trivial = open/close times were returned for >= 1 slit; distinct = distinct inputs',
-        'samples': [human(c) for c in (cases[0:3] + cases[9:12])],
+        'samples': [human(c) for c in (cases[0:3] + cases[9:11] + cases[18:20])],
+        'frequency_dtypes': dt_count,
         'modes': modes,
         'constructed': accepted, 'with_times': timed, 'intervals_simulated': n_iv, 'cascade_intervals_simulated': n_civ,
         'variant_found': {'validation': 'repaired (wrap-aware)' if vfix else 'as found (plain numbers)',
@@ -420,6 +496,10 @@ def explain(reason, c, r):
         'validation-differs-from-model': 'validation decision differs from the model of _check_edges',
         'ratio-accepted-model-rejects': 'frequency ratio accepted although neither quotient nor inverse is within 1e-8 of an integer',
         'ratio-rejected-model-accepts': 'frequency ratio rejected although the quotient (or inverse) is within 1e-8 of an integer',
+        'ratio-int-pulse-frequency-rounded': '_source_phase_factor converts an INTEGER-dtype pulse frequency to the chopper\'s frequency unit within the '
+                                             'integer dtype (rounded to a whole number) before forming the ratio: out-of-phase choppers are accepted, '
+                                             'in-phase ones rejected, the repetition count is wrong, or round(inf) raises OverflowError',
+        'times-raise-unexpected-error': 'time_offset_open/close raised an exception other than the documented ValueError',
         'cascade-opening-reported-twice': 'Chopper.from_disk_chopper lists the same opening more than once '
                                           '(rotation -1 of pulse k+1 is rotation n-1 of pulse k)',
         'cascade-closed-inside-reported-interval': 'Chopper.from_disk_chopper lists an interval during which the disk is closed '
@@ -462,6 +542,19 @@ def py_property(c, r):
         out.append('validation-accepts-overlap')
     if not acc or not valid or full_circle or f == 0:
         return out
+    # ratio test, from the physical frequencies (exact): accepted => quotient or inverse within 1e-8 of an integer
+    t = r.get('times', {})
+    if fp > 0:
+        q = abs(f) / fp
+        dist = min(abs(q - round(q)), abs(1 / q - round(1 / q)))
+        if 'error' in t and t['error'] != 'ValueError':
+            out.append('times-raise-unexpected-error')
+        elif 'open' in t and dist > Fraction(105, 10 ** 10):
+            out.append('ratio-accepted-model-rejects')
+        elif 'error' in t and dist < Fraction(95, 10 ** 10):
+            out.append('ratio-rejected-model-accepts')
+        elif 'open' in t and len(sl) > 0 and q >= 1 and len(t['open']) != (round(q) + 1) * len(sl):
+            out.append('repetitions-differ-from-frequency-ratio')
     proper = all(b < e for b, e in sl)
     eps = Fraction(1, 10 ** 9) / abs(f)
     for pre, key, uo, uc in (('', 'times', 'unit', 'close_unit'), ('cascade-', 'cascade', 'unit', 'close_unit')):
@@ -495,7 +588,8 @@ def py_property(c, r):
 def search(ctx, broken):
     """an obligation broke: evaluate the property statement itself (Python, exact rationals) on the implementation"""
     rng = random.Random(ctx.seed + 7)
-    cases = corpus() + [gen_case(rng, 9 + i) for i in range(300)]
+    cases = corpus()
+    cases += [gen_case(rng, len(cases) + i) for i in range(300)]
     results = run_cases(ctx, cases)['cases']
     found = []
     for c, r in zip(cases, results):
